@@ -142,7 +142,7 @@ def worker_main(args):
 # parent side
 
 
-def _spawn(prop_id, tier, seed, shard, of, env, tmp, skip, replay=None):
+def _spawn(prop_id, tier, seed, shard, of, env, tmp, skip, replay=None, stack_mb=None):
     out = os.path.join(tmp, f'out.{shard}.{len(skip)}.pkl')
     ckpt = os.path.join(tmp, f'ckpt.{shard}')
     log = open(os.path.join(tmp, f'log.{shard}.{len(skip)}'), 'wb')
@@ -152,7 +152,18 @@ def _spawn(prop_id, tier, seed, shard, of, env, tmp, skip, replay=None):
         cmd += ['--skip', json.dumps(skip)]
     if replay:
         cmd += ['--replay', replay]
-    p = subprocess.Popen(cmd, env=env, cwd=str(VERIF), stdout=log, stderr=subprocess.STDOUT)
+    preexec = None
+    if stack_mb:
+        import resource  # noqa: PLC0415
+
+        def preexec():
+            lim = stack_mb * 1024 * 1024
+            try:
+                resource.setrlimit(resource.RLIMIT_STACK, (lim, lim))
+            except (ValueError, OSError):
+                resource.setrlimit(resource.RLIMIT_STACK, (resource.RLIM_INFINITY, resource.RLIM_INFINITY))
+
+    p = subprocess.Popen(cmd, env=env, cwd=str(VERIF), stdout=log, stderr=subprocess.STDOUT, preexec_fn=preexec)
     return {'p': p, 'out': out, 'ckpt': ckpt, 'log': log.name, 'shard': shard, 'skip': list(skip),
             't0': time.time()}
 
@@ -173,6 +184,11 @@ def run_check(prop_id, tier, seed, replay=None, workers=None):  # noqa: C901, PL
         return 2
     env['VERIF_TIER'] = tier
     env['VERIF_SEED'] = str(seed)
+    rel_env = env
+    if spec.get('rel_shards'):
+        rel_env = build.env_for('rel')
+        rel_env['VERIF_TIER'] = tier
+        rel_env['VERIF_SEED'] = str(seed)
     nworkers = workers or int(os.environ.get('VERIF_WORKERS', '0')) or min(16, os.cpu_count() or 4)
     nshards = 1 if replay else spec.get('shards', {}).get(tier, nworkers)
     timeout = spec.get('worker_timeout', {}).get(tier, 3600)
@@ -183,6 +199,7 @@ def run_check(prop_id, tier, seed, replay=None, workers=None):  # noqa: C901, PL
         'sets': collections.defaultdict(set), 'notes': [],
     }
     broken = []
+    gave_up = False
     try:
         pending = list(range(nshards))
         running = []
@@ -191,7 +208,9 @@ def run_check(prop_id, tier, seed, replay=None, workers=None):  # noqa: C901, PL
         while pending or running:
             while pending and len(running) < nworkers:
                 s = pending.pop(0)
-                running.append(_spawn(prop_id, tier, seed, s, nshards, env, tmp, skips[s], replay))
+                use_rel = s in spec.get('rel_shards', []) and not replay
+                running.append(_spawn(prop_id, tier, seed, s, nshards, rel_env if use_rel else env, tmp, skips[s],
+                                      replay, None if use_rel else spec.get('stack_mb')))
             time.sleep(0.02)
             for w in list(running):
                 rc = w['p'].poll()
@@ -253,8 +272,10 @@ def run_check(prop_id, tier, seed, replay=None, workers=None):  # noqa: C901, PL
                 if replay:
                     continue
                 restarts += 1
-                if restarts > MAX_RESTARTS:
-                    broken.append(f'more than {MAX_RESTARTS} worker crashes; giving up')
+                if restarts > spec.get('max_restarts', MAX_RESTARTS):
+                    merged['notes'].append(f'more than {spec.get("max_restarts", MAX_RESTARTS)} worker crashes: '
+                                           f'exploration stopped early (NOT exhaustive)')
+                    gave_up = True
                     pending.clear()
                     continue
                 skips[w['shard']].append(ck.get('id'))
@@ -304,6 +325,8 @@ def run_check(prop_id, tier, seed, replay=None, workers=None):  # noqa: C901, PL
         print(f'replay: {"violation reproduced" if exit_code else "no violation"}')
         return exit_code
 
+    if gave_up:
+        spec = dict(spec, exhaustive=False)
     try:
         evidence.write(prop_id, tier, seed, spec, merged, wall, len(unlisted),
                        sorted(printed_known))
@@ -311,6 +334,9 @@ def run_check(prop_id, tier, seed, replay=None, workers=None):  # noqa: C901, PL
         traceback.print_exc()
         print('BROKEN: evidence could not be written / validated')
         return 2
+    if gave_up and exit_code == 0:
+        print('BROKEN: exploration stopped early after too many worker crashes')
+        exit_code = 2
     total_viol = sum(merged['viol_counts'].values())
     print(f'[{prop_id}] tier={tier} seed={seed} evaluations={merged["evaluations"]} '
           f'distinct={len(merged["classes"])} outcomes={len(merged["outcomes"])} '
